@@ -10,6 +10,7 @@ from vlib.runner import Eval
 
 ID = "C12"
 LEVEL = "exploration"
+CGF_RUNS = {"thorough": 3000}  # coverage-guided stage (vlib/cgf.py): libFuzzer executions per worker, 16 workers
 RULE = (
     "Rule/listing pairs from the broadest generator (every construct, incl. nullable rules with min:0, shipped macros, restarting addresses, "
     "byte-continuation lines), each evaluated in all 2x2x2 combinations of return mode (bool/list), search mode (first/all) and address-only flag - "
